@@ -2,6 +2,7 @@
 from __future__ import annotations
 
 import ast
+import re
 from collections import Counter
 
 from sa.engine.callgraph import _local_assignments, calls_in, resolve_call
@@ -452,6 +453,57 @@ def rule_lin(ctx: Ctx) -> RuleReport:
                 rep.ok({"branch": tag, "order": order})
             else:
                 rep.fail(Finding("C19-LIN", OMML, pe.qual, f"m:{tag} order {order}", f"m:{tag} emits its operands in order {order}, source order is {CHILD_ORDER[tag]}", line=r.lineno))
+    # (g) an element's own property child decides its characters: no descendant search inside a structural branch (a nested
+    # delimiter / operator / accent in the operands would lend its character to the outer element)
+    mod = ctx.p.module(OMML)
+    n_own = 0
+    for tag, st in branches:
+        for c in [x for n in st.body for x in ast.walk(n) if isinstance(x, ast.Call) and isinstance(x.func, ast.Attribute) and x.func.attr in ("find", "findall", "findtext", "iter", "iterfind")]:
+            path = ctx.folder.fold(mod, c.args[0]) if c.args else None
+            bare = re.sub(r"\{[^}]*\}", "", path) if isinstance(path, str) else None
+            if c.func.attr == "iter" or (bare is not None and "//" in bare):
+                rep.fail(Finding("C19-LIN", OMML, pe.qual, f"m:{tag}: descendant lookup {c.func.attr}({path!r})" if isinstance(path, str) else f"m:{tag}: descendant lookup {norm(c)}", f"the branch for m:{tag} searches its whole subtree (`{short(c, 60)}`): when the element has no such property of its own, the first nested element's character is taken -- (1+|x|) becomes |1+|x||", line=c.lineno))
+            else:
+                n_own += 1
+    rep.ok({"property_lookups": n_own, "descendant_searches": 0})
+    # (h) defaults of absent property characters are the ones of ECMA-376 part 1: m:nary without m:chr is the integral (22.1.2.20),
+    # m:d without begChr / endChr is ( ) (22.1.2.7, 22.1.2.30)
+    SPEC_DEFAULTS = {"nary": {"\u222b"}, "d": {"(", ")"}}
+    for tag, st in branches:
+        if tag not in SPEC_DEFAULTS:
+            continue
+        got = []
+        for x in [y for n in st.body for y in ast.walk(n) if isinstance(y, ast.IfExp)]:
+            if isinstance(x.test, ast.Compare) and "is not None" in norm(x.test) and isinstance(x.orelse, ast.Constant) and isinstance(x.orelse.value, str):
+                got.append((x, x.orelse.value))
+                if isinstance(x.body, ast.Call) and isinstance(x.body.func, ast.Attribute) and x.body.func.attr == "get" and len(x.body.args) == 2 and isinstance(x.body.args[1], ast.Constant):
+                    got.append((x, x.body.args[1].value))
+        # the same through a helper of the module: helper(elem, ..., "<default>")
+        for x in [y for n in st.body for y in ast.walk(n) if isinstance(y, ast.Call) and isinstance(y.func, ast.Name) and y.func.id in mod.functions and not _is_pe_call(y)]:
+            if x.args and isinstance(x.args[-1], ast.Constant) and isinstance(x.args[-1].value, str) and any(isinstance(c, ast.Call) and isinstance(c.func, ast.Attribute) and c.func.attr == "find" for c in ast.walk(mod.functions[x.func.id].node)):
+                got.append((x, x.args[-1].value))
+        if not got:
+            rep.info.append(f"default character of m:{tag} not recognised in the branch (not decided)")
+            continue
+        for x, v in got:
+            if v in SPEC_DEFAULTS[tag]:
+                rep.ok({"branch": tag, "default_character": v})
+            else:
+                rep.fail(Finding("C19-LIN", OMML, pe.qual, f"m:{tag}: default character {v!r}", f"m:{tag} without its character property is rendered with {v!r}; ECMA-376 defines {sorted(SPEC_DEFAULTS[tag])} -- Word omits the property exactly for that default, so every plain integral / parenthesis gets the wrong form", line=x.lineno))
+    # (i) call sites: m:oMathPara holds one m:oMath per line (CT_OMathPara: oMath+); taking find() of it converts the first line only
+    for rel in (X + "ms_modern/docx_extractor.py", X + "ms_modern/pptx_extractor.py"):
+        cm = ctx.p.module(rel)
+        sites = 0
+        for fi in cm.functions.values():
+            for c in calls_in(fi):
+                if isinstance(c.func, ast.Attribute) and c.func.attr in ("find", "findall", "iter") and c.args and norm(c.args[0]) == "M_OMATH":
+                    sites += 1
+                    if c.func.attr == "find":
+                        rep.fail(Finding("C19-LIN", rel, fi.qual, f"{norm(c.func.value)}.find(M_OMATH)".replace(norm(c.func.value), "v0"), f"`{short(c, 50)}` takes only the first m:oMath of a display equation: the run text of every further line of a multi-line equation (Shift+Enter in Word) is missing from the text and from the formulas", line=c.lineno))
+                    else:
+                        rep.ok({"call_site": f"{fi.qual}: {short(c, 40)}", "all_children": True})
+        if sites == 0:
+            raise AnalysisError(f"C19-LIN: no m:oMath lookup found in {rel}")
     # (d) default branch and top level: concatenation of all direct children in order
     from sa.engine.shape import compare
 
